@@ -1286,12 +1286,13 @@ Proof. destruct fuel; cbn [nodes_of]; [now left|]. destruct (is_internal_f (flag
 Definition aux0 (g : G) : aux :=
   mkAux (fun x => memb x (nodes_of 24 g root)) (fun u => mkLV [] [] None None (if Nat.eqb u 63 then 64%nat else 0%nat)).
 
+Opaque bst_ok nodes_of.
 Lemma init_IS g : init_check g = true -> IS g (aux0 g).
 Proof.
-  unfold init_check. intros H. repeat (apply andb_true_iff in H; destruct H as [H ?]).
+  unfold init_check, aux0. set (L := nodes_of 24 g root). assert (HLr : In root L) by apply nodes_of_head. clearbody L. intros H. repeat (apply andb_true_iff in H; destruct H as [H ?]).
   rename H0 into Hown, H1 into Hcl, H2 into Hnull, H3 into HL, H4 into Hroot.
   rewrite forallb_forall in Hown, Hcl. apply Z.eqb_eq in Hnull, HL, Hroot.
-  constructor; cbn [apub aux0].
+  constructor; cbn [apub].
   - now apply (bst_ok_T 24).
   - exact Hroot.
   - exact HL.
@@ -1302,15 +1303,17 @@ Proof.
   - intros n d Hn Hi. apply memb_In in Hn. specialize (Hcl n Hn). unfold internal in Hi. rewrite Hi in Hcl. cbn [negb orb] in Hcl.
     apply andb_true_iff in Hcl; destruct Hcl as [Hcl NR]. apply andb_true_iff in Hcl; destruct Hcl as [Hcl NL].
     apply andb_true_iff in Hcl; destruct Hcl as [ML MR]. destruct d; cbn [child]; assumption.
-  - apply memb_In. apply nodes_of_head.
-  - intros t. unfold view. cbn [aviews aux0]. split; [constructor|]. split; [constructor|]. split; [exact Logic.I|]. split; [exact Logic.I|].
+  - apply memb_In. exact HLr.
+  - intros t. unfold view. cbn [aviews]. split; [constructor|]. split; [constructor|]. split; [exact Logic.I|]. split; [exact Logic.I|].
     intros n Hn1 Hn2 Hn3. cbn [vser vleaf vni] in *. split; [|split; [discriminate|intros; discriminate]].
-    destruct (memb n (nodes_of 24 g root)) eqn:E; [|reflexivity]. exfalso. apply memb_In in E. specialize (Hown n E).
+    destruct (memb n L) eqn:E; [|reflexivity]. exfalso. apply memb_In in E. specialize (Hown n E).
     apply orb_true_iff in Hown. destruct Hown as [X|X]; [apply Nat.ltb_lt in X; lia|].
     apply andb_true_iff in X. destruct X as [X1 X2]. apply Nat.eqb_eq in X1. apply Nat.ltb_lt in X2.
     rewrite X1 in Hn2. subst t. cbn [Nat.eqb] in Hn3. lia.
   - exact Hnull.
 Qed.
+
+Transparent bst_ok nodes_of.
 
 Lemma nth_error_combine {A B} : forall (l1 : list A) (l2 : list B) n a b,
   nth_error (combine l1 l2) n = Some (a, b) -> nth_error l1 n = Some a /\ nth_error l2 n = Some b.
